@@ -83,6 +83,12 @@ class _SpecModule:
 def make_param(eng, st, name, ann, override=None):
     if override is not None:
         kind = override
+        if isinstance(kind, tuple) and kind and kind[0] == 'const':
+            return kind[1]
+        if isinstance(kind, tuple) and kind and kind[0] == 'list':
+            return [make_param(eng, st, '%s[%d]' % (name, k), None, v) for k, v in enumerate(kind[1])]
+        if isinstance(kind, dict) and '__dict__' in kind:
+            return {k: make_param(eng, st, '%s[%s]' % (name, k), None, v) for k, v in kind['__dict__'].items()}
         if isinstance(kind, dict) and '__class__' in kind:
             rel, cname = kind['__class__'].split('::')
             o = Obj((rel, cname))
@@ -265,7 +271,8 @@ def verify_function(ctx, relpath, qual, canary=True, struct=None, label=None):
             post.env['result'] = s.retval
             canary_states.append(post.fork())
             fr.spec_only = True
-            for i, cl in enumerate(c.ensures):
+            all_ens = list(c.ensures) + ['self.%s is (%s)' % (an, ex) for an, ex in c.sets.items()]
+            for i, cl in enumerate(all_ens):
                 f = eng.ev_clause(cl, post, fr)
                 eng.prove(post, fr, 'post', f, node, clause='ensures[%d]: %s' % (i, cl),
                           name='%s:post[%d]@ret%d' % (fr.fname, i, report['returns']))
